@@ -17,8 +17,8 @@
    and the meter records the request (the tie classifies peak > cap as OOM).
    Error-message strings (CanonError::Decode(String), < 256 bytes) are not charged.
 
-   Configuration [cfg]: the decoder as it is in /repo now is [cfg_unguarded].  [cfg_guarded] is
-   the decoder with the proposed minimal patch: a cumulative element budget (initially the
+   Configuration [cfg]: [cfg_unguarded] is the decoder before /repo 65efcf1.  [cfg_guarded] (= [cfg_repo],
+   the decoder as it is in /repo now) has the guard: a cumulative element budget (initially the
    input length) checked before each Vec::with_capacity, and a nesting limit.
 
    usize is [usize_max]-bounded; `len as usize` is [as_usize] (identity on 64-bit targets,
@@ -81,8 +81,9 @@ Definition cfg_guarded32 : cfg := mkcfg (2 ^ 32 - 1) (2 ^ 31 - 1) true (Some gua
 Definition cfg_unguarded32 : cfg := mkcfg (2 ^ 32 - 1) (2 ^ 31 - 1) false None.
 
 (* THE ONE-LINE SWITCH: which configuration models crates/echo-wasm-abi/src/canonical.rs as it is
-   in /repo now.  Change to [cfg_guarded] when the guard patch is committed. *)
-Definition cfg_repo : cfg := cfg_unguarded.
+   in /repo now.  [cfg_guarded] since /repo 65efcf1 (element budget + MAX_DECODE_DEPTH = 128);
+   [cfg_unguarded] is the decoder before that commit. *)
+Definition cfg_repo : cfg := cfg_guarded.
 
 Definition is_guarded (c : cfg) : bool :=
   guard c && match depth_limit c with Some _ => true | None => false end.
